@@ -94,7 +94,7 @@ pub fn all() -> Vec<Prop> {
             id: "C02",
             level: "exploration",
             rule: "history level: one evaluation = one simulated cluster execution; the monitor counts, per (view, block, hash), the weight of correct commit voters plus the whole Byzantine weight (= what the adversary could certify) and checks uniqueness per block number, no later correct vote against or below a potentially certified block, and that every certificate seen in correct nodes' messages/stores is for the ledger block; non-trivial = a block became potentially certified and a timeout certificate was involved; distinct = distinct event-log fingerprint",
-            batches: |t| bft_batches(&[("faultfree", 16), ("byzheavy", 200)], &[("faultfree", 100), ("byzheavy", 6000)], t),
+            batches: |t| bft_batches(&[("faultfree", 16), ("byzheavy", 200), ("twins", 40)], &[("faultfree", 100), ("byzheavy", 6000), ("twins", 1000)], t),
             expected_probes: || vec!["timeout_qc_without_high_vote", "timeout_qc_three_or_more_distinct_votes"],
             components: bft_components,
             assumptions: bft_assumptions,
@@ -103,7 +103,7 @@ pub fn all() -> Vec<Prop> {
             id: "C05",
             level: "exploration",
             rule: "one evaluation = one simulated cluster execution; after every replica step a snapshot (hook H3) is checked: view / high certificates monotone, current view justified by a held certificate, every held or emitted certificate genuine w.r.t. the run's signing history (not the repo's verify), every emitted message verifies in isolation, and a reference replica (sim/src/bft/refmodel.rs, written from the informal specification) makes the same step in lock-step: same verdict (which guard rejects the input), same (view, phase, high vote, high certificates) afterwards, same messages sent, same vote-cache sizes; non-trivial = at least 3 views reached and a block committed; distinct = distinct event-log fingerprint; abstract state = (event, phase, certificate offsets, vote/certificate relation, message view relative to own, outcome class)",
-            batches: |t| bft_batches(&[("faultfree", 24), ("swarm", 200), ("byzheavy", 60), ("crashy", 40)], &[("faultfree", 200), ("swarm", 6000), ("byzheavy", 1500), ("crashy", 1000)], t),
+            batches: |t| bft_batches(&[("faultfree", 24), ("swarm", 200), ("byzheavy", 60), ("crashy", 40), ("twins", 40)], &[("faultfree", 200), ("swarm", 6000), ("byzheavy", 1500), ("crashy", 1000), ("twins", 1000)], t),
             expected_probes: || vec!["reference_replica_steps"],
             components: bft_components,
             assumptions: bft_assumptions,
